@@ -304,6 +304,10 @@ fn bind_group_layout_entry(
 }
 
 fn storage_access(access: naga::StorageAccess) -> TokenStream {
+    // Textures used with atomic operations need their own access mode.
+    if access.contains(naga::StorageAccess::ATOMIC) {
+        return quote!(wgpu::StorageTextureAccess::Atomic);
+    }
     let is_read = access.contains(naga::StorageAccess::LOAD);
     let is_write = access.contains(naga::StorageAccess::STORE);
     match (is_read, is_write) {
